@@ -43,6 +43,8 @@ def main():
                 res["checks"][c] = {"exit": rc, "clauses": sorted(set(re.findall(r"clause=([\w-]+)", out))), "wall_s": round(time.time() - t, 1)}
                 if rc != 0:
                     res["checks"][c]["tail"] = "\n".join(l for l in out.splitlines() if l.startswith(("VIOLATION", "  clause", "INFRA")))[:1500]
+                    if rc == 2:
+                        res["checks"][c]["tail"] = out[-3000:]
     finally:
         sh("git -C /repo worktree remove --force %s" % wt)
     out_dir = os.path.join(VERIF, "seeded", "benign", name)
